@@ -38,6 +38,12 @@ PLAN = {
  "C18_m1": [("C11", ["--only", "zz"])], "C18_m2": [("C11", ["--only", "zz"])], "C18_m3": [("C08", ["--only", "p256"])],
  "C18_m4": [("C09", ["--only", "jq255s"])],
  "C10_m1": [("C10", ["--tier", "thorough"])],
+ "C08s_m1": [("C08", ["--only", "p256"])], "C08s_m2": [("C08", ["--only", "secp256k1"])], "C08s_m3": [("C08", ["--only", "p256"]), ("C19", ["--only", "p256"])],
+ "C08s_m4": [("C08", ["--only", "p256"])],
+ "C09s_m1": [("C11", ["--only", "zz"])], "C09s_m2": [("C11", ["--only", "zz"])], "C09s_m3": [("C09", ["--only", "jq255s"])], "C09s_m4": [("C09", ["--only", "gls254"])],
+ "C17_m1": [("C17", ["--only", "step"])],
+ "C07s_m1": [("C07", ["--only", "sign"])], "C07s_m2": [("C07", ["--only", "sign"])], "C07s_m3": [("C07", ["--only", "sign"])],
+ "C07s_m4": [("C07", ["--only", "sign"])], "C07s_m5": [("C17", []), ("C07", ["--only", "sign"])],
  "C11_m1": [("C11", ["--only", "zz"])], "C11_m2": [("C11", ["--only", "theta"])],
  "C11_m3": [("C11", ["--only", "split"]), ("C11", ["--only", "kani"])], "C11_m4": [("C11", ["--only", "kani"]), ("C11", ["--only", "split"])],
 }
